@@ -38,7 +38,7 @@ def self_validate(pid: str) -> int:
     muts = [dict(m, checks=[pid], expect={pid: m.get("expect", {}).get(pid, "")}) for m in MUTANTS + load_seeded() if pid in m["checks"]]
     from .selftest import load_refactors
     sil = [dict(m, checks=[pid]) for m in SILENT + load_refactors() if pid in m["checks"]]
-    env_jobs = int(os.environ.get("KVERIF_JOBS", "4"))
+    env_jobs = int(os.environ.get("KVERIF_JOBS", "8"))
     os.environ["KVERIF_NO_SELFVALIDATION"] = "1"
     with ThreadPoolExecutor(env_jobs) as ex:
         r1 = list(ex.map(lambda v: run_variant(v, "mutant"), muts))
